@@ -21,6 +21,7 @@ EXPLANATION = (
     "and semirings is value-level and not decided."
     " Added after seed round 6: I6 every semiring whose plus is a true sum (a + b, log-sum-exp, '(%s + %s)') resolves is_dsp() to True, the flag by which get_evaluatable picks a compiled circuit."
     " Added after seed round 7: I4 also forbids an early exit from a fold loop while an is_zero of the package compares with a tolerance."
+    " Added after seed round 8: I7 an evaluator stores nothing on the shared compiled formula that depends on its own semiring or weights."
 )
 TECHNIQUE = "static analysis: protocol conformance over the class hierarchy, sibling agreement of circuit folds, decision tables"
 LEVEL_TEXT = EXPLANATION
